@@ -700,6 +700,9 @@ pub fn install() {
         libc::sigaction(libc::SIGILL, &sa, core::ptr::null_mut());
         libc::sigaction(libc::SIGBUS, &sa, core::ptr::null_mut());
         libc::sigaction(libc::SIGTRAP, &sa, core::ptr::null_mut());
+        // an abort (a panic that cannot unwind, e.g. inside an `extern "x86-interrupt"` stub) ends the process through the
+        // same emergency exit, so that the report gathered so far is written and the abort can be attributed
+        libc::sigaction(libc::SIGABRT, &sa, core::ptr::null_mut());
     }
 }
 
